@@ -342,8 +342,11 @@ void dispatchProgram(GenState &gs, Node *c) {
   gs.emitBackpatched(Instruction::Jmp(after_label));
 
   // generate program code
-  Node *name_node = c->left->left, *args_node = c->left->right->left,
-       *out_node = c->left->right->right, *body_node = c->right;
+  // a header without ports (no IN) has no port node at all
+  Node *name_node = c->left->left, *port_node = c->left->right,
+       *args_node = port_node != NULL ? port_node->left : NULL,
+       *out_node = port_node != NULL ? port_node->right : NULL,
+       *body_node = c->right;
 
   std::string name = std::string(name_node->tok);
   gs.pushSymbols(name);
